@@ -372,3 +372,106 @@ func VerifH_C19_m3u8() {
 }
 
 func bytesReader(s string) *bytes.Reader { return bytes.NewReader([]byte(s)) }
+
+// ---------- XML documents ----------
+
+type c19XMLWant struct {
+	raw   string
+	asset bool
+}
+
+// c19XMLNode renders one XML node whose kind is chosen symbolically and records the URLs planted in attributes and
+// text nodes. The real encoding/xml tokenizer reads the rendered bytes (from SSA in the symbolic run).
+func c19XMLNode(depth int, name string, want *[]c19XMLWant) string {
+	kinds := 7
+	if depth == 0 {
+		kinds = 6
+	}
+	switch verifrt.Choice("kind_"+name, kinds) {
+	case 0: // URL with an extension in an attribute, self-closing element
+		*want = append(*want, c19XMLWant{"http://a.b/x.png", true})
+		return `<enclosure url="http://a.b/x.png" length="3"/>`
+	case 1: // URL without extension as the text of an element
+		*want = append(*want, c19XMLWant{"https://c.d/page", false})
+		return `<loc>https://c.d/page</loc>`
+	case 2: // no URL at all
+		return `<t id="n1">plain text</t>`
+	case 3: // CDATA section
+		*want = append(*want, c19XMLWant{"http://e.f/cdata.mp3", true})
+		return `<d><![CDATA[http://e.f/cdata.mp3]]></d>`
+	case 4: // entity-escaped query: the tokenizer hands out the unescaped text
+		*want = append(*want, c19XMLWant{"http://g.h/q?a=1&b=2", false})
+		return `<link>http://g.h/q?a=1&amp;b=2</link>`
+	case 5: // two attributes of one element, namespace prefix
+		*want = append(*want, c19XMLWant{"https://i.j/thumb.jpg", true}, c19XMLWant{"http://k.l/watch", false})
+		return `<media:content thumb="https://i.j/thumb.jpg" rel="x" href="http://k.l/watch"></media:content>`
+	default: // container with up to two children
+		s := "<item>"
+		n := 1 + verifrt.Choice("len_"+name, 2)
+		for i := 0; i < n; i++ {
+			s += c19XMLNode(depth-1, name+string(rune('0'+i)), want)
+		}
+		return s + "</item>"
+	}
+}
+
+// VerifH_C19_xml: every absolute http(s) URL in an attribute or a text node of an XML document is discovered; URLs
+// whose last path segment has a file extension are assets, the others outlinks.
+func VerifH_C19_xml() {
+	var want []c19XMLWant
+	doc := `<?xml version="1.0" encoding="UTF-8"?><rss version="2.0">`
+	n := 1 + verifrt.Choice("top", 2)
+	for i := 0; i < n; i++ {
+		doc += c19XMLNode(1, "r"+string(rune('0'+i)), &want)
+	}
+	doc += "</rss>"
+	u := c19URLWithBody(doc)
+	assets, outlinks, err := XML(u)
+	verifrt.Assert(err == nil, "C19 XML: a well-formed document is read to its end")
+	count := func(list []*models.URL, raw string) int {
+		c := 0
+		for _, x := range list {
+			if x != nil && x.Raw == raw {
+				c++
+			}
+		}
+		return c
+	}
+	planted := map[string]int{}
+	for _, w := range want {
+		planted[w.raw]++
+	}
+	for _, w := range want {
+		verifrt.Cover("xml-url-planted")
+		if w.asset {
+			verifrt.Cover("xml-asset")
+			verifrt.Assert(count(assets, w.raw) == planted[w.raw] && count(outlinks, w.raw) == 0, "C19 XML: URLs with a file extension are assets")
+		} else {
+			verifrt.Cover("xml-outlink")
+			verifrt.Assert(count(outlinks, w.raw) == planted[w.raw] && count(assets, w.raw) == 0, "C19 XML: URLs without a file extension are outlinks")
+		}
+	}
+	verifrt.Assert(len(assets)+len(outlinks) == len(want), "C19 XML: nothing but the URLs of the document is discovered")
+	if len(want) > 2 {
+		verifrt.Cover("xml-several")
+	}
+}
+
+// VerifH_C10_xml_truncated: an XML document cut at any byte (a server can stop anywhere) costs an error or fewer
+// links, never a panic or an endless loop; the sitemap sniffer reads it too.
+func VerifH_C10_xml_truncated() {
+	doc := `<?xml version="1.0"?><urlset xmlns="http://www.sitemaps.org/schemas/sitemap/0.9"><url><loc>https://c.d/page</loc><x a="http://a.b/x.png"/><![CDATA[z]]><!-- c --></url></urlset>`
+	cut := int(verifrt.IntRange("cut", 0, int64(len(doc))))
+	u := c19URLWithBody(doc[:cut])
+	sitemap := IsSitemapXML(u)
+	assets, outlinks, err := XML(u)
+	verifrt.Cover("xml-cut")
+	if cut == len(doc) {
+		verifrt.Cover("xml-whole")
+		verifrt.Assert(err == nil && sitemap && len(assets)+len(outlinks) == 3, "C10 XML: the whole document yields its links")
+	}
+	if err != nil {
+		verifrt.Cover("xml-error")
+	}
+	verifrt.Assert(len(assets)+len(outlinks) <= 3, "C10 XML: a truncated document yields at most the links of the whole one")
+}
